@@ -1190,6 +1190,12 @@ func runVacuum(c *Case, id string) {
 			}
 		}
 	}
+	if is09 && w.cache > 0 && c.Res.Status != "violated" {
+		c09CacheReturn(c, r)
+	}
+	if is09 && c.Index%8 == 2 && c.Res.Status != "violated" {
+		c09KeepWalk(c, r)
+	}
 	// non-triviality
 	shared := false
 	if len(g) >= 2 && len(postNames) > 0 {
@@ -1217,5 +1223,224 @@ func runVacuum(c *Case, id string) {
 			l = l[len(l)-14:]
 		}
 		c.Res.Sample = map[string]interface{}{"writers": nw, "entries_per_node": epn, "cutoff": tstr(cutoff), "cutoff_kind": cutKind, "history_tail": l, "objects_deleted": deletedObjs}
+	}
+}
+
+// c09CacheReturn is the deterministic form of the "failed vacuum, then a return
+// to earlier content" tail: a table with one value column (equal rows encode
+// to equal bytes, N4), node cache on, single-node tree. Versions {rows},
+// {rows+k1}, {rows+k1+k2}; a vacuum with one refused DELETE removes some of
+// the two old nodes; deleting k2 and k1 again, each followed by a vacuum,
+// returns the table to exactly those nodes, which must be stored again.
+func c09CacheReturn(c *Case, r *Rng) {
+	st := newStore()
+	defer dropStore(st)
+	conn := OpenConn("cr")
+	defer conn.Close()
+	t := tname(c, "cret")
+	spec := TableSpec{Name: t, Cols: "k PRIMARY KEY, a", Store: st.Name, Client: "cr", Prefix: "cret", EPN: 4096, Cache: 32}
+	fail := func(sig, msg string) {
+		c.Violate("C09:cache-return:"+sig, msg, map[string]interface{}{"create": spec.SQL()})
+	}
+	step := func(ts int, q string) bool {
+		conn.SetWriteTime(ts)
+		if err := conn.Exec(q); err != nil {
+			fail("statement-error", q+": "+err.Error())
+			return false
+		}
+		return true
+	}
+	if err := conn.Create(spec); err != nil {
+		fail("statement-error", err.Error())
+		return
+	}
+	n := r.Range(1, 4)
+	var vals []string
+	for i := 1; i <= n; i++ {
+		vals = append(vals, fmt.Sprintf("(%d,'r%d')", i, i))
+	}
+	if !step(100, "insert into "+t+" values "+strings.Join(vals, ",")) {
+		return
+	}
+	rows, _ := conn.Dump(t)
+	if !step(101, "insert into "+t+" values (101,'k1')") {
+		return
+	}
+	rowsK1, _ := conn.Dump(t)
+	if !step(102, "insert into "+t+" values (102,'k2')") {
+		return
+	}
+	vacuum := func() error {
+		res, err := conn.Rows("select vacuum_error from s3db_vacuum('"+t+"', ?)", "2100-01-01 00:00:00")
+		if err == nil && (len(res) != 1 || res[0] != "NULL") {
+			err = fmt.Errorf("%v", res)
+		}
+		return err
+	}
+	f := fs3.Fault{Op: fs3.OpDel, KeyContain: "/node/", Skip: 1, Action: "error"}
+	if r.Bool() {
+		f = fs3.Fault{Op: fs3.OpDel, KeyContain: "/root/merged/", Action: "error"}
+	}
+	st.Client("cr").AddFault(f)
+	verr := vacuum()
+	st.Client("cr").ClearFaults()
+	c.Count("cache_return_scenarios", 1)
+	if verr != nil {
+		c.Count("cache_return_vacuums_failed_as_planned", 1)
+	}
+	base := walk.Base("cret")
+	for i, x := range []struct {
+		ts   int
+		q    string
+		want []string
+	}{{103, "delete from " + t + " where k=102", rowsK1}, {104, "delete from " + t + " where k=101", rows}} {
+		if !step(x.ts, x.q) {
+			return
+		}
+		if err := vacuum(); err != nil {
+			fail("vacuum-error", fmt.Sprintf("the vacuum after %q (an earlier vacuum had failed at a refused DELETE under %s) failed: %v", x.q, f.KeyContain, err))
+			return
+		}
+		snap := st.Snapshot()
+		for _, name := range walk.VersionNames(snap, base, "current") {
+			if v := walk.Walk(snap, base, name); len(v.Problems) > 0 {
+				fail("current-version-broken", fmt.Sprintf("step %d: after the table returned to the content of a version whose node an earlier, failed vacuum had deleted, the current version %s is incomplete: %s", i, name, v.Problems[0]))
+				return
+			}
+		}
+		fc := OpenConn("crf")
+		ft := tname(c, "cretf")
+		fs := spec
+		fs.Name, fs.Client, fs.Cache, fs.ReadOnly = ft, "crf", 0, true
+		var fd []string
+		err := fc.Create(fs)
+		if err == nil {
+			fd, err = fc.Dump(ft)
+		}
+		fc.Close()
+		if err != nil {
+			fail("unreadable:fresh", fmt.Sprintf("step %d: a fresh connection cannot read the table: %v", i, err))
+			return
+		}
+		if d := firstDiff(x.want, fd); d != "" {
+			fail("rows-changed:fresh", fmt.Sprintf("step %d: a fresh connection reads other rows than the table held at that content before: %s", i, d))
+			return
+		}
+	}
+}
+
+// c09KeepWalk is a deterministic scenario for the pass that protects the nodes
+// of kept versions: one value column (N4), entries_per_node 4. A row is
+// inserted and deleted, an early vacuum purges the marker (the table is back at
+// the first version's content and shares its nodes), one more row is inserted.
+// The vacuum under test keeps the purged version (its successor is younger
+// than the cutoff) and reclaims the first three; every GET position of that
+// vacuum fails once; whatever the vacuum reports, the kept versions must stay
+// complete.
+func c09KeepWalk(c *Case, r *Rng) {
+	vclockInstall()
+	st := newStore()
+	defer dropStore(st)
+	defer vclockDrop(st.Name)
+	spec := TableSpec{Name: tname(c, "kw"), Cols: "k PRIMARY KEY, a", Store: st.Name, Client: "kw", Prefix: "kw", EPN: 4}
+	fail := func(sig, msg string) {
+		c.Violate("C09:keep-walk:"+sig, msg, map[string]interface{}{"create": spec.SQL()})
+	}
+	conn := OpenConn("kw")
+	t := spec.Name
+	clock := 10
+	vclockSet(st.Name, clock)
+	if err := conn.Create(spec); err != nil {
+		conn.Close()
+		fail("statement-error", err.Error())
+		return
+	}
+	do := func(wt int, q string, args ...interface{}) bool {
+		clock += 10
+		vclockSet(st.Name, clock)
+		conn.Exec("select s3db_refresh('" + t + "')")
+		conn.SetWriteTime(wt)
+		if _, err := conn.Rows(q, args...); err != nil {
+			fail("statement-error", q+": "+err.Error())
+			return false
+		}
+		return true
+	}
+	n := r.Range(9, 20)
+	var vals []string
+	for i := 1; i <= n; i++ {
+		vals = append(vals, fmt.Sprintf("(%d,'r%d')", i*10, i))
+	}
+	x := 10*r.Range(1, n) + 5
+	y := 10*r.Range(1, n) + 7
+	ok := do(1, "insert into "+t+" values "+strings.Join(vals, ",")) && // created @20
+		do(2, fmt.Sprintf("insert into %s values (%d,'x')", t, x)) && // @30
+		do(3, fmt.Sprintf("delete from %s where k=%d", t, x)) && // @40
+		do(4, "select * from s3db_vacuum('"+t+"', ?)", tstr(5)) && // @50: purges the marker, reclaims nothing
+		do(6, fmt.Sprintf("insert into %s values (%d,'y')", t, y)) // @60
+	conn.Close()
+	if !ok {
+		return
+	}
+	pre := st.Snapshot()
+	base := walk.Base("kw")
+	cutoff := 55
+	kept := []string{}
+	for name, v := range vacGraph(pre, base) {
+		if v.Created >= tnanos(50) {
+			kept = append(kept, name)
+		}
+	}
+	if len(kept) != 2 {
+		c.Count("keep_walk_scenarios_without_two_kept_versions", 1)
+		return
+	}
+	run := func(at int) (reqs int, verr error, snap fs3.Snapshot) {
+		s2 := newStore()
+		defer dropStore(s2)
+		s2.Restore(pre)
+		vclockSet(s2.Name, 70)
+		defer vclockDrop(s2.Name)
+		cn := OpenConn("kw")
+		defer cn.Close()
+		sp := spec
+		sp.Store = s2.Name
+		if err := cn.Create(sp); err != nil {
+			return 0, err, nil
+		}
+		cl := s2.Client("kw")
+		cl.ResetCounters()
+		if at > 0 {
+			cl.AddFault(fs3.Fault{AtReq: at, Op: fs3.OpGet, Action: "error"})
+		}
+		res, err := cn.Rows("select vacuum_error from s3db_vacuum('"+t+"', ?)", tstr(cutoff))
+		if err == nil && (len(res) != 1 || res[0] != "NULL") {
+			err = fmt.Errorf("%v", res)
+		}
+		reqs, _ = cl.Counters()
+		return reqs, err, s2.Snapshot()
+	}
+	R, verr, _ := run(0)
+	if verr != nil {
+		fail("vacuum-error", "the vacuum failed without any fault: "+verr.Error())
+		return
+	}
+	c.Count("keep_walk_scenarios", 1)
+	for p := 1; p <= R && p <= 120; p++ {
+		_, verr, snap := run(p)
+		c.Count("keep_walk_fault_points", 1)
+		if verr != nil {
+			c.Count("keep_walk_vacuums_failed", 1)
+		}
+		for _, name := range kept {
+			if _, _, ok := walk.FindVersion(snap, base, name); !ok {
+				fail("kept-version-gone", fmt.Sprintf("with request %d of %d failing (if a GET), the vacuum (reported: %v) removed version %s, created after the cutoff", p, R, verr, name))
+				return
+			}
+			if v := walk.Walk(snap, base, name); len(v.Problems) > 0 {
+				fail("kept-version-broken", fmt.Sprintf("with request %d of %d failing (if a GET), the vacuum (reported: %v) left version %s, created after the cutoff, incomplete: %s", p, R, verr, name, v.Problems[0]))
+				return
+			}
+		}
 	}
 }
